@@ -578,7 +578,14 @@ func c37Sessions() [][]c37Text {
 	colJoin := c37Text{Text: colPrefix + " from ok join secret within 10m last 1h", Label: "same-long-column-list-join(ok,secret)"}
 	colExplain := c37Text{Text: "explain " + colPrefix + " from ok last 1h", Label: "explain-long-column-list(ok)"}
 	colExplainSecret := c37Text{Text: "explain " + colPrefix + " from secret last 1h", Label: "explain-same-long-column-list(secret)"}
+	// the Kelvin sign (U+212A) lower-cases to ASCII 'k' under full Unicode case folding but not under
+	// ASCII folding: two different topic names whose texts may share a normalised key
+	kelvin := c37Text{Text: "select * from o\u212a tail 1", Label: "select(o<KELVIN SIGN>)"}
+	upperTopic := c37Text{Text: "select * from OK tail 1", Label: "select(OK)"} // topic names are case-sensitive: OK is not ok
 	return [][]c37Text{
+		{short, upperTopic},
+		{short, kelvin},
+		{kelvin, short},
 		{colBenign, colSecret},
 		{colBenign, colJoin},
 		{colSecret, colBenign},
